@@ -74,6 +74,7 @@ class Ctx:
         self.assumptions = []
         self.known = load_known(pid)
         self.drift = 0
+        self.vacuous = []
 
     @property
     def thorough(self):
@@ -215,7 +216,8 @@ class Ctx:
         hits = v.get("hits", {})
         for h in must_hit:
             if hits.get(h, 0) == 0:
-                raise ToolError("vacuous trace run: clause %s never exercised in %s" % (h, os.path.basename(trace_file)))
+                # deferred to finish(): a vacuity failure must not mask violations found in the same run
+                self.vacuous.append("clause %s never exercised in %s" % (h, os.path.basename(trace_file)))
         self.trace_runs.append({"spec": spec_rel, "trace": os.path.basename(trace_file), "events": nlines,
                                 "bad": len(bads), "hits": hits, "wall_s": round(dt, 1)})
         self.states += nlines + 1
@@ -304,6 +306,8 @@ class Ctx:
         log("[evidence] evidence/%s.json written: evaluations=%d nontrivial=%d states=%d traces=%d violations=%d known=%d wall=%.0fs"
             % (self.pid, self.evaluations, distinct_nontrivial, self.states, self.traces, len(self.violations),
                len(set(k for k, _ in self.known_hits)), time.time() - self.t0))
+        if self.vacuous and not self.violations:
+            raise ToolError("vacuous trace run: " + "; ".join(self.vacuous))
         if self.violations:
             if len(self.violations) > 25:
                 log("(%d further violating cases not listed individually)" % (len(self.violations) - 25))
